@@ -247,6 +247,39 @@ func (c *verifFixtureCountedGood) DecodeColumn(r *Reader, rows int) error {
 	return err
 }
 
+// C06.reslice-up: grows the position list by re-slicing to the announced row count.
+type verifFixtureResliceBad struct{ Pos []Position }
+
+func (c *verifFixtureResliceBad) DecodeColumn(r *Reader, rows int) error {
+	c.Pos = c.Pos[:rows]
+	for i := range c.Pos {
+		n, err := r.StrLen()
+		if err != nil {
+			return err
+		}
+		c.Pos[i] = Position{End: n}
+	}
+	return nil
+}
+
+// C06.reslice-up negative control: capacity checked first.
+type verifFixtureResliceGood struct{ Pos []Position }
+
+func (c *verifFixtureResliceGood) DecodeColumn(r *Reader, rows int) error {
+	if cap(c.Pos) < rows {
+		c.Pos = make([]Position, rows)
+	}
+	c.Pos = c.Pos[:rows]
+	for i := range c.Pos {
+		n, err := r.StrLen()
+		if err != nil {
+			return err
+		}
+		c.Pos[i] = Position{End: n}
+	}
+	return nil
+}
+
 // C08: interprets a partial read.
 func verifFixtureRawRead(r io.Reader, buf []byte) (int, error) {
 	n, err := r.Read(buf)
@@ -446,6 +479,24 @@ func runFixtures(c *Ctx, prop string) {
 				got = !got
 			}
 			record(nm.Obj().Name()+".Infer", "C06.infer-index", nm.Obj().Name() == "verifFixtureIdxBad", got)
+		}
+		for _, fn := range p.Funcs() {
+			nm := core.RecvNamed2(fn)
+			if nm == nil || fn.Name() != "DecodeColumn" || !strings.HasPrefix(nm.Obj().Name(), "verifFixtureReslice") {
+				continue
+			}
+			sites := resliceUpSites(fn)
+			got := false
+			for _, s := range sites {
+				if !s.ok {
+					got = true
+				}
+			}
+			want := nm.Obj().Name() == "verifFixtureResliceBad"
+			if len(sites) == 0 {
+				got = !want
+			}
+			record(nm.Obj().Name()+".DecodeColumn", "C06.reslice-up", want, got)
 		}
 		for name, want := range map[string]bool{"verifFixtureEnumTableBad": true, "verifFixtureEnumTableGood": false} {
 			got := !want
